@@ -66,6 +66,10 @@ CHECKS = {
          "exhaustive enumeration of boundary parameter sets (single-field deviations, pairs among fee/tax fields, full product for small modules) crossed with senders, genesis import and the module's operation menu, each executed on the real application on its own state branch",
          "For coinswap, farm, htlc, service, token: every parameter set of the lattice is sent by the authority and by a stranger and pushed through genesis validation/import - stored iff authority and the module's Validate() accepts; under every accepted set every operation that succeeds under the defaults is run on a fork followed by two blocks - a panic in a handler or blocker that does not occur under the defaults is a violation.",
          "DESIGN.md §3 C16"),
+ "C13": ("model_checking",
+         "explicit-state exhaustive search with the HTLC, farm and service drivers in block-safety mode: recover() around every real begin/end blocker, due-processing oracles (refund exactly at expiry, pool refund exactly at end height, batches exactly on schedule) and raw-queue-versus-object hygiene evaluated in every reached state",
+         "Every sequence up to the depth bound including objects created, modified, paused, destroyed or re-scheduled in the block they fall due, several objects due at one height and block-time steps from 1 s to 21 days: no blocker panics or returns an error; every queue entry refers to an existing object awaiting processing at exactly its due height, every awaiting object has exactly one entry, nothing stays queued at a processed height, height markers agree with entries, no request stays active past its expiration.",
+         "DESIGN.md §3 C13, appendix B"),
 }
 NOT_YET = "check not built yet in this phase of the work (see DESIGN.md §6 change log); not claimed"
 
